@@ -53,6 +53,9 @@ def stepLine (d : DSt) (t : List String) : DSt × String :=
           let h := resizeHint s.p.stride s.p.bucketAlign s.p.nBuckets used (nat! size) (nat! align) strat
           (d, s!"hint size={h.bucketSize} align={h.bucketAlign} payload={h.bucketSize * h.nBuckets}")
       | _ => (d, "bad-op")
+  | ["uacell", size, al, p] =>
+      let c (i : Nat) := alignUp (nat! p + nat! size * (i % 2)) (nat! al)
+      (d, s!"c0={c 0} c1={c 1} c7={c 7}")
   | ["mk", off, seg] =>
       let v := mkOffset (nat! off) (nat! seg)
       (d, s!"v={v} off={offsetOf v} seg={segmentOf v}")
